@@ -97,6 +97,8 @@ def _run_task(args):
                 seed=seed,
                 on_path=on_path,
                 logic=task.get("logic"),
+                solver=task.get("solver", "z3"),
+                cross_check=task.get("cross_check", tier == "thorough" and os.environ.get("VERIF_NO_CROSS") is None),
                 **caps,
             )
         res["label"] = task["label"]
